@@ -9,7 +9,7 @@ and `Key ls loc = marker ++ enc ls ++ loc` a resource-record key of the v2 layou
 import DnsVerif.Proofs.RevOrder
 
 namespace DnsVerif.Props.C02
-open DnsVerif DnsVerif.Rdb DnsVerif.Name DnsVerif.RevOrder
+open DnsVerif DnsVerif.Rdb DnsVerif.Name DnsVerif.RevOrder DnsVerif.Serve
 
 /-! ### 1. order lemmas for v2 keys -/
 
@@ -88,6 +88,115 @@ example :
     Loc.findMapV1 s₁ (pack [[97]]) [0, 0x4d] = some [0, 2] ∧
     (match Loc.findMapSorted s₂ (pack [[98], [97]]) [0, 0x4d] with | .ok r => r | _ => none) = some [0, 1] ∧
     Loc.findMapV1 s₁ (pack [[98], [97]]) [0, 0x4d] = some [0, 1] := by decide
+
+/-! ### 3. the walk: skip lemma and single-step lemma of `sortedDataReader.find`
+
+`RepRRV1 s₁ rows` / `RepRRV2 s₂ rows`: the two stores hold the same rows (`rows owner loc`, owner as
+labels in query order). In the v2 store every key that starts with the marker `\000o` is a
+resource-record key of a well-formed owner with a 2-byte location, or has a byte `≥ 64` right after
+the marker (the features key); all other keys are arbitrary. -/
+
+/-- **Skip lemma.** With `Key m l''` the greatest key `≤ Key c L`: every name strictly between the
+common label prefix of `c` and `m` and `c` itself owns no rows at all (any location), and if
+`m ≠ c` then `c` owns no rows for a location `≤ L` — so none for `L` and none untagged. -/
+theorem skip_lemma {rows : Rows} {c m : List Bytes} (hc : NameOK c) (hm : NameOK m) {L l'' : Bytes}
+    (hle : bytesLe (Key m l'') (Key c L) = true)
+    (hmax : ∀ a loc, NameOK a → loc.length = 2 → bytesLe (Key a loc) (Key c L) = true →
+      rows a.reverse loc ≠ [] → bytesLe (Key a loc) (Key m l'') = true) :
+    (∀ a, a <+: c → a ≠ c → ¬ a <+: lcp c m → ∀ loc, loc.length = 2 → rows a.reverse loc = []) ∧
+    (m ≠ c → ∀ loc, loc.length = 2 → bytesLe loc L = true → rows c.reverse loc = []) :=
+  RevOrder.skip_lemma hc hm hle hmax
+
+/-- the hypothesis `hmax` of the skip lemma is what `SeekForPrev` delivers on a v2 store -/
+theorem seek_delivers_skip_hypothesis {s : Store} {rows : Rows} (hrep : RepRRV2 s rows) {c : List Bytes}
+    (hc : NameOK64 c) {L : Bytes} (hL : L.length = 2) {fk : Bytes} {vals : List Bytes}
+    (hseek : s.seekForPrev (Key c L) = some (fk, vals)) (hpre : fk.take 2 = marker) :
+    ∃ m l'', NameOK m ∧ l''.length = 2 ∧ fk = Key m l'' ∧ bytesLe (Key m l'') (Key c L) = true ∧
+      ∀ a loc, NameOK a → loc.length = 2 → bytesLe (Key a loc) (Key c L) = true →
+        rows a.reverse loc ≠ [] → bytesLe (Key a loc) (Key m l'') = true := by
+  rcases rr_seek_cases hrep hc hL with ⟨hA, _⟩ | hB | ⟨m, l'', vals', hm, hl'', hC, _, hle, _, hmax⟩
+  · rcases hA with h | ⟨fk', vals', h, _, hp⟩
+    · rw [h] at hseek; cases hseek
+    · rw [h] at hseek; cases hseek; exact absurd hpre hp
+  · rw [hB] at hseek; cases hseek
+    exact ⟨c, L, hc.ok, hL, rfl, bytesLe_refl _, fun a loc _ _ h _ => h⟩
+  · rw [hC] at hseek; cases hseek
+    exact ⟨m, l'', hm, hl'', rfl, hle, hmax⟩
+
+/-- **Single-step lemma.** One iteration of `find` (generic callbacks `pre`/`onRows`/`post`, with
+`onRows [] = id`) at the prefix `c` of the reversed query `n`, for a client location `v.loc`:
+the row callbacks are exactly those of the label walk at `c` (`st3Of`: rows for the client's
+location unless it is `[0,0]`, then the untagged rows); then either `post` stops the search, or
+the search stops and no proper ancestor of `c` owns any row, or it continues at a proper ancestor
+`c'` of `c` and every name strictly between `c'` and `c` owns no row — the names the label walk
+visits in between contribute nothing. Never a panic for a well-formed query of ≤ 255 octets. -/
+theorem findGo_single_step {σ : Type} {rows : Rows} (v : View) (hrep : RepRRV2 v.store rows)
+    (hvl : v.loc.length = 2) (pre : Nat → σ → Option σ) (onRows : List Bytes → σ → σ)
+    (post : σ → σ × Bool) (honil : ∀ st, onRows [] st = st) (fuel : Nat) (st st1 : σ)
+    {n c : List Bytes} (hn : NameOK64 n) (hlen : (pack n).length ≤ 255) (hc : c <+: n)
+    (hpre : pre (pack c).length st = some st1) :
+    ((post (st3Of rows onRows v.loc c st1)).2 = false ∧
+      findGo v (pack n) pre onRows post (fuel + 1) (pack c).length st = .ok (post (st3Of rows onRows v.loc c st1)).1) ∨
+    ((post (st3Of rows onRows v.loc c st1)).2 = true ∧
+      findGo v (pack n) pre onRows post (fuel + 1) (pack c).length st = .ok (post (st3Of rows onRows v.loc c st1)).1 ∧
+      ∀ a, a <+: c → a ≠ c → NoRows rows a) ∨
+    ((post (st3Of rows onRows v.loc c st1)).2 = true ∧
+      ∃ c', c' <+: c ∧ c' ≠ c ∧ (∀ a, a <+: c → a ≠ c → ¬ a <+: c' → NoRows rows a) ∧
+        findGo v (pack n) pre onRows post (fuel + 1) (pack c).length st =
+          findGo v (pack n) pre onRows post fuel (pack c').length (post (st3Of rows onRows v.loc c st1)).1) :=
+  findGo_step v hrep hvl pre onRows post honil fuel st st1 hn (by omega) hc hpre
+
+/-- when `pre` refuses, the search returns the state unchanged -/
+theorem findGo_pre_stop {σ : Type} (v : View) (rev : Bytes) (pre : Nat → σ → Option σ)
+    (onRows : List Bytes → σ → σ) (post : σ → σ × Bool) (fuel qLength : Nat) (st : σ)
+    (h : pre qLength st = none) : findGo v rev pre onRows post (fuel + 1) qLength st = .ok st :=
+  findGo_pre_none v rev pre onRows post fuel qLength st h
+
+example : RepRRV1 [] (fun _ _ => []) ∧ RepRRV2 [] (fun _ _ => []) :=
+  ⟨fun _ _ _ _ => rfl, ⟨fun _ h => by simp at h, fun _ _ _ _ => rfl⟩⟩
+
+/-- **`IsAuthoritative`, v2 vs v1.** For stores holding the same rows in the two layouts, rows that
+never make `ExtractRRFromRow` panic, a 2-byte client location, a query with labels of 1…63 bytes and
+at most 255 octets: both searches succeed with the same `ns` and `auth`; if an NS was found the zone
+cut is the same; if not, the label walk reports the root while the closest-key search reports a
+suffix `z0` of the query none of whose proper ancestors owns any row (`CutAgree`). -/
+theorem isAuthoritativeV2_agrees_V1 {s₁ s₂ : Store} {rows : Rows} (hrep1 : RepRRV1 s₁ rows)
+    (hrep2 : RepRRV2 s₂ rows) (hok : ∀ z loc, RowsOK (rows z loc)) {l : Bytes} (hl : l.length = 2)
+    (q : List Bytes) (hq : NameOK64 q) (hlen : (pack q).length ≤ 255) :
+    CutAgree rows q (isAuthoritativeV2 ⟨.rdbV2, s₂, l⟩ (pack q))
+      (isAuthoritativeV1 ⟨.rdbV1, s₁, l⟩ ((pack q).length + 1) (pack q) false false) :=
+  isAuthoritativeV2_agrees_V1' hrep1 hrep2 hok hl q hq (by omega)
+
+/-- literal equality when the label walk finds an NS (a zone or a delegation encloses the query) -/
+theorem isAuthoritativeV2_eq_V1_partial {s₁ s₂ : Store} {rows : Rows} (hrep1 : RepRRV1 s₁ rows)
+    (hrep2 : RepRRV2 s₂ rows) (hok : ∀ z loc, RowsOK (rows z loc)) {l : Bytes} (hl : l.length = 2)
+    (q : List Bytes) (hq : NameOK64 q) (hlen : (pack q).length ≤ 255)
+    (hns : ∀ c, isAuthoritativeV1 ⟨.rdbV1, s₁, l⟩ ((pack q).length + 1) (pack q) false false = .ok c →
+      c.ns = true) :
+    isAuthoritativeV2 ⟨.rdbV2, s₂, l⟩ (pack q) =
+      isAuthoritativeV1 ⟨.rdbV1, s₁, l⟩ ((pack q).length + 1) (pack q) false false :=
+  (isAuthoritativeV2_agrees_V1 hrep1 hrep2 hok hl q hq hlen).eq_of_ns hns
+
+/-- The literal statement "`IsAuthoritative` of the two layouts returns the same `Cut`" -/
+def isAuthoritativeV2_eq_V1_literal : Prop :=
+  ∀ (s₁ s₂ : Store) (rows : Rows) (l : Bytes) (q : List Bytes), RepRRV1 s₁ rows → RepRRV2 s₂ rows →
+    l.length = 2 → NameOK64 q → (pack q).length ≤ 255 →
+    isAuthoritativeV2 ⟨.rdbV2, s₂, l⟩ (pack q) =
+      isAuthoritativeV1 ⟨.rdbV1, s₁, l⟩ ((pack q).length + 1) (pack q) false false
+
+/-- … is false as it stands: when no NS is found on the way up, the label walk reports the root as
+`zoneCut` while the closest-key search reports the last name it visited (here the query itself,
+on an empty database). `ns`/`auth` agree, and `serve` answers REFUSED without looking at `zoneCut`
+when both are false, so the difference is not observable there. -/
+theorem isAuthoritativeV2_eq_V1_literal_false : ¬ isAuthoritativeV2_eq_V1_literal := by
+  intro h
+  have h1 := h [] [] (fun _ _ => []) [0, 0] [[97]] (fun _ _ _ _ => rfl)
+    ⟨fun _ h => by simp at h, fun _ _ _ _ => rfl⟩ rfl (by decide) (by decide)
+  have e2 : isAuthoritativeV2 ⟨.rdbV2, [], [0, 0]⟩ (pack [[97]]) = .ok ⟨false, false, [1, 97, 0]⟩ := by rfl
+  have e1 : isAuthoritativeV1 ⟨.rdbV1, [], [0, 0]⟩ ((pack [[97]]).length + 1) (pack [[97]]) false false =
+      .ok ⟨false, false, [0]⟩ := by rfl
+  rw [e1, e2] at h1
+  cases h1
 
 /-! ### 4. marker order facts, re-checked against the extracted constants -/
 
